@@ -178,7 +178,7 @@ class World(S.WorldComponent):
                 "C01_no_crosstalk", "ppid_roundtrip"]
     ssn_share = 4
     mix = [("early", False, 6), ("ssnwrap", False, 2), ("reliable", False, 2), ("reliable", True, 1), ("reorder-frag", True, 2), ("reorder-frag", False, 1),
-           ("reliable-heavy-loss", False, 2), ("clean", False, 1), ("mixed-pr", False, 1), ("lifecycle", False, 1),
+           ("reliable-heavy-loss", False, 2), ("clean", False, 1), ("mixed-pr", False, 1), ("lifecycle", False, 1), ("neg-low", False, 3),
            ("reuse", False, 3), ("reuse", True, 1), ("expiry", False, 3), ("strike", False, 3)]
     quick = (75, 240)
     thorough = (360, 500)
